@@ -110,8 +110,122 @@ func checkC12(w *World, r *Report) {
 	r.Rule("R12.6", "an existing sibling is never overwritten: the store into the name-keyed child map is reachable only through the not-present branch of a presence test on the same key, whose present branch returns the redefinition error; addChoice appends only after a full scan that returns the error on an equal name", 2)
 	r.guard("R12.6", func() { c12NoOverwrite(w, r) })
 
-	r.Rule("R12.7", "references are resolved where they are written: every getModuleAndReference call looks the reference up in Root() of the referring statement (the grouping's module), and package compile never consults UsesRoot()", 4)
-	r.guard("R12.7", func() { c12LexicalScope(w, r) })
+	r.Rule("R12.7", "references are resolved where they are written: every getModuleAndReference call looks the reference up in Root() of the referring statement (the grouping's module), and package compile never consults UsesRoot()", 5)
+	r.guard("R12.7", func() {
+		c12LexicalScope(w, r)
+		// a prefixed reference inside a grouping is resolved in the grouping's module too: GetModuleByPrefix
+		// (reached from getModuleAndReference for every prefixed type, feature, identity and grouping name)
+		// reads Root() and never the module the node was copied into
+		pp := w.Pkg("parse")
+		gfd, _ := w.FuncDecl(w.Method("parse", "node", "GetModuleByPrefix"))
+		usesOther := false
+		ast.Inspect(gfd.Body, func(x ast.Node) bool {
+			if ce, ok := x.(*ast.CallExpr); ok {
+				if c := calleeOf(pp, ce); c != nil && nm(c) == "UsesRoot" {
+					usesOther = true
+				}
+			}
+			if fieldOfSel(pp, asExpr(x)) == w.Field("parse", "node", "useTree") {
+				usesOther = true
+			}
+			return true
+		})
+		r.Check(!usesOther, "R12.7", "node.GetModuleByPrefix resolves in the defining module", gfd.Pos(), "Root() only", "a prefix written inside a grouping is looked up in the module that uses the grouping: `type lib:t` inside lib's grouping no longer resolves (or resolves to the user's own t) once the grouping is used from another module")
+	})
+
+	r.Rule("R12.10", "the compiler keeps no memory from one module to the next beyond its reviewed tables: the fields of compile.Compiler are exactly the reviewed ones, and each map- or slice-valued field is written only by the reviewed functions — a prefix, path or name remembered on the Compiler means something else in the next module (prefixes are per module)", 8)
+	r.guard("R12.10", func() {
+		cst, ok := scopeLookup(w.Pkg("compile").Types.Scope(), "Compiler").(*types.TypeName)
+		if !ok {
+			panic(undecided{"compile.Compiler"})
+		}
+		st := cst.Type().Underlying().(*types.Struct)
+		reviewed := map[string]string{
+			"modules":            "NewCompiler",
+			"modnames":           "Compiler.ExpandModules",
+			"submodules":         "NewCompiler",
+			"identities":         "Compiler.checkIdentities",
+			"deviations":         "NewCompiler;Compiler.addDeviation",
+			"warnings":           "Compiler.saveWarning",
+			"typedefsInProgress": "Compiler.BuildBaseType",
+			"verifiedFeatures":   "NewCompiler;Compiler.checkFeatures",
+		}
+		writers := map[string]map[string]bool{}
+		for _, f := range allFuncs(w.SSAPkg("compile")) {
+			if isTestFile(w, f.Pos()) {
+				continue
+			}
+			who := strings.Join(w.OwnerNames(f), "|")
+			for _, b := range f.Blocks {
+				for _, in := range b.Instrs {
+					var fa *ssa.FieldAddr
+					switch x := in.(type) {
+					case *ssa.Store:
+						fa, _ = x.Addr.(*ssa.FieldAddr)
+					case *ssa.MapUpdate:
+						if ld, ok := x.Map.(*ssa.UnOp); ok {
+							fa, _ = ld.X.(*ssa.FieldAddr)
+						}
+					}
+					if fa == nil {
+						continue
+					}
+					fv := fieldAddrVar(fa)
+					if fv == nil {
+						continue
+					}
+					own := false
+					for i := 0; i < st.NumFields(); i++ {
+						if st.Field(i) == fv {
+							own = true
+						}
+					}
+					if !own {
+						continue
+					}
+					if writers[nm(fv)] == nil {
+						writers[nm(fv)] = map[string]bool{}
+					}
+					writers[nm(fv)][who] = true
+				}
+			}
+		}
+		for i := 0; i < st.NumFields(); i++ {
+			fv := st.Field(i)
+			switch fv.Type().Underlying().(type) {
+			case *types.Map, *types.Slice, *types.Struct:
+			default:
+				continue // flags, callbacks, interfaces set at construction
+			}
+			var ws []string
+			for k := range writers[nm(fv)] {
+				ws = append(ws, k)
+			}
+			sort.Strings(ws)
+			exp, known := reviewed[nm(fv)]
+			if !known {
+				r.Fail("R12.10", "Compiler."+fv.Name(), fv.Pos(), "a field of a mutable kind ("+fv.Type().String()+", written by {"+strings.Join(ws, ",")+"}) that is not among the reviewed ones: what it remembers outlives the module it was computed for")
+				continue
+			}
+			okW := true
+			allowed := map[string]bool{}
+			for _, a := range strings.Split(exp, ";") {
+				allowed[a] = true
+			}
+			for _, x := range ws {
+				any := false
+				for _, nme := range strings.Split(x, "|") {
+					if allowed[nme] {
+						any = true
+					}
+				}
+				if !any {
+					okW = false
+				}
+			}
+			r.Check(okW, "R12.10", "Compiler."+fv.Name(), fv.Pos(), "written by "+strings.Join(ws, ","), "Compiler."+fv.Name()+" is written by {"+strings.Join(ws, ",")+"}, reviewed writers are {"+exp+"}")
+		}
+	})
 
 	r.Rule("R12.8", "expansion reaches every statement: expandGroupings descends into every child of the node it handles, on every iteration", 1)
 	r.guard("R12.8", func() { c12ExpandEveryChild(w, r) })
